@@ -52,42 +52,42 @@ type rEv struct {
 }
 
 type rCfg struct {
-	Name            string `json:"name"`
-	Mode            string `json:"mode"`
-	RateMode        bool   `json:"rate_mode"`
-	Conc            int    `json:"conc"`
-	MaxIter         int64  `json:"maxiter"`
-	MaxDurUs        int64  `json:"maxdur_us"`
-	TrigDurUs       int64  `json:"trigdur_us"` // trigger's own total duration (0 = unlimited)
-	IntervalUs      int64  `json:"interval_us"`
-	WaitUs          int64  `json:"wait_us"`
-	CancelUs        int64  `json:"cancel_us"` // 0 = never cancelled
-	SetupFail       bool   `json:"setup_fail"`
-	SetupMode       string `json:"setup_mode"`
-	SetupUs         int64  `json:"setup_us"`      // setup sleeps this long
-	CleanupUs       int64  `json:"cleanup_us"`    // every iteration cleanup sleeps this long
-	Wedge           bool   `json:"wedge"`         // negative replay of RunLifecycle's wedge: park a due progress tick until main is inside Summary
-	StopDelayUs     int64  `json:"stop_delay_us"` // the hook parks the pool's stop goroutine this long at tp.stop.flagged
-	PoolOnly        bool   `json:"pool_only"`     // cooperative pool schedules: no Run.Do around the pool
-	Light           bool   `json:"light"`         // contention runs: bodies only record their id lock-free; no end/cleanup events
-	Blockers        int    `json:"blockers"`
-	Ample           bool   `json:"ample"` // concurrency >= every tick and instant bodies: nothing can be pending at a tick
-	Rendezvous      bool   `json:"rendezvous"`
-	StageEndDelayAt int    `json:"stage_end_delay_at"` // file mode: the stage loop is held for stage_end_delay_us when this stage (1-based) ends
-	StageEndDelayUs int64  `json:"stage_end_delay_us"`
-	StallFirstUs    int64  `json:"stall_first_us"` // the trigger goroutine is held this long right after its FIRST evaluation (a slow pool start)
-	CancelAtEval    int    `json:"cancel_at_eval"` // file mode: the caller cancels right after this rate evaluation (1-based), while the trigger goroutine is still busy with it for stall_us
-	UIntervalUs     int64  `json:"uinterval_us"`   // scripted configured-rate function: the interval it is configured for (0 = not scripted)
-	StallEval       int    `json:"stall_eval"`     // the trigger goroutine is held for stall_us right after this evaluation (1-based; 0 = never)
-	StallUs         int64  `json:"stall_us"`
-	MetricsRuns     int    `json:"metrics_runs"`
-	RunIndex        int    `json:"run_index"`
-	Labels          string `json:"labels"`
-	Args            string `json:"args"`
-	FileStages      int    `json:"file_stages"`
-	TeardownFail    bool   `json:"teardown_fail"` // a cleanup registered by the setup fails when the run is over
-	StepAtUs        int64  `json:"step_at_us"`    // staged step profile: 0 until this instant of the profile, step_val from then on
-	StepVal         int64  `json:"step_val"`
+	Name            string  `json:"name"`
+	Mode            string  `json:"mode"`
+	RateMode        bool    `json:"rate_mode"`
+	Conc            int     `json:"conc"`
+	MaxIter         int64   `json:"maxiter"`
+	MaxDurUs        int64   `json:"maxdur_us"`
+	TrigDurUs       int64   `json:"trigdur_us"` // trigger's own total duration (0 = unlimited)
+	IntervalUs      int64   `json:"interval_us"`
+	WaitUs          int64   `json:"wait_us"`
+	CancelUs        int64   `json:"cancel_us"` // 0 = never cancelled
+	SetupFail       bool    `json:"setup_fail"`
+	SetupMode       string  `json:"setup_mode"`
+	SetupUs         int64   `json:"setup_us"`      // setup sleeps this long
+	CleanupUs       int64   `json:"cleanup_us"`    // every iteration cleanup sleeps this long
+	Wedge           bool    `json:"wedge"`         // negative replay of RunLifecycle's wedge: park a due progress tick until main is inside Summary
+	StopDelayUs     int64   `json:"stop_delay_us"` // the hook parks the pool's stop goroutine this long at tp.stop.flagged
+	PoolOnly        bool    `json:"pool_only"`     // cooperative pool schedules: no Run.Do around the pool
+	Light           bool    `json:"light"`         // contention runs: bodies only record their id lock-free; no end/cleanup events
+	Blockers        int     `json:"blockers"`
+	Ample           bool    `json:"ample"` // concurrency >= every tick and instant bodies: nothing can be pending at a tick
+	Rendezvous      bool    `json:"rendezvous"`
+	StageEndDelayAt int     `json:"stage_end_delay_at"` // file mode: the stage loop is held for stage_end_delay_us when this stage (1-based) ends
+	StageEndDelayUs int64   `json:"stage_end_delay_us"`
+	StallFirstUs    int64   `json:"stall_first_us"` // the trigger goroutine is held this long right after its FIRST evaluation (a slow pool start)
+	CancelAtEval    int     `json:"cancel_at_eval"` // file mode: the caller cancels right after this rate evaluation (1-based), while the trigger goroutine is still busy with it for stall_us
+	UIntervalUs     int64   `json:"uinterval_us"`   // scripted configured-rate function: the interval it is configured for (0 = not scripted)
+	StallEval       int     `json:"stall_eval"`     // the trigger goroutine is held for stall_us right after this evaluation (1-based; 0 = never)
+	StallUs         int64   `json:"stall_us"`
+	MetricsRuns     int     `json:"metrics_runs"`
+	RunIndex        int     `json:"run_index"`
+	Labels          string  `json:"labels"`
+	Args            string  `json:"args"`
+	FileStages      int     `json:"file_stages"`
+	TeardownFail    bool    `json:"teardown_fail"` // a cleanup registered by the setup fails when the run is over
+	StepAtUs        int64   `json:"step_at_us"`    // staged step profile: 0 until this instant of the profile, step_val from then on
+	StepVal         int64   `json:"step_val"`
 	StageIntervals  []int64 `json:"stage_intervals_us"` // file mode: the tick interval each stage is configured for (0 = not a rate stage / not stated)
 }
 
